@@ -190,8 +190,23 @@ func (w *World) rulesV4ScoreRest(m *scoreModel, modFn *types.Func, add func(ok b
 	}
 	add(true, "R04.dom", "Score.lookups", fd, fmt.Sprintf("for all %d MacroVectors every lookup performed while computing the next-lower MacroVectors stays inside the table (no panic, no spurious NaN)", len(keys)))
 	m.entry, m.keys, m.table = entry, keys, tbl
-	// locals at loop entry, by name
+	// locals at loop entry, by name (elements of small local arrays: name[i])
+	type elemRef struct {
+		o types.Object
+		i int
+	}
+	byElem := map[string]elemRef{}
 	byName := map[string]types.Object{}
+	entryOf := func(key, sym string) Val {
+		if er, ok := byElem[sym]; ok {
+			v := entry[key][er.o]
+			if v.K == VList && er.i < len(v.T) {
+				return v.T[er.i]
+			}
+			return Val{}
+		}
+		return entry[key][byName[sym]]
+	}
 	for o := range entry[keys[0]] {
 		byName["$"+o.Name()] = o
 	}
@@ -229,6 +244,22 @@ func (w *World) rulesV4ScoreRest(m *scoreModel, modFn *types.Func, add func(ok b
 		case *ast.AssignStmt:
 			for _, l := range s.Lhs {
 				if o := identObj(info, l); o != nil && !isUint8(o.Type()) {
+					if at, isArr := o.Type().Underlying().(*types.Array); isArr {
+						// a small array of floats: one symbol per element
+						if isFloat(at.Elem()) && at.Len() <= 16 {
+							if se.arrs == nil {
+								se.arrs = map[types.Object][]*Ex{}
+							}
+							elems := make([]*Ex, at.Len())
+							for i := range elems {
+								nm := fmt.Sprintf("$%s[%d]", o.Name(), i)
+								elems[i] = mkSym(nm)
+								byElem[nm] = elemRef{o, i}
+							}
+							se.arrs[o] = elems
+						}
+						continue
+					}
 					se.vars[o] = mkSym("$" + o.Name())
 					byName["$"+o.Name()] = o
 				}
@@ -331,12 +362,12 @@ func (w *World) rulesV4ScoreRest(m *scoreModel, modFn *types.Func, add func(ok b
 	// $eqsv is the lookup value; $lower the count
 	okSv, okLower := true, true
 	for _, key := range keys {
-		v := entry[key][byName[eqsvSym]]
+		v := entryOf(key, eqsvSym)
 		if v.K != VRat || v.R.Cmp(tbl[key]) != 0 {
 			okSv = false
 		}
 		_, lw := nextLowerMSD(tbl, key)
-		lv := entry[key][byName[lowerSym]]
+		lv := entryOf(key, lowerSym)
 		if lv.K != VInt || int(lv.I) != lw {
 			if okLower {
 				add(false, "R04.nlm", "Score.lower", fd, fmt.Sprintf("for MacroVector %s the divisor of the mean is %s, but %d next-lower MacroVectors exist", key, lv, lw))
@@ -353,13 +384,13 @@ func (w *World) rulesV4ScoreRest(m *scoreModel, modFn *types.Func, add func(ok b
 	// per term: which EQ is it?
 	usedK := map[string]bool{}
 	for _, tm := range terms {
-		mo := byName[tm.msd.Name]
+		msdName := tm.msd.Name
 		which := ""
 		for _, K := range []string{"1", "2", "36", "4", "5"} {
 			all := true
 			for _, key := range keys {
 				want, _ := nextLowerMSD(tbl, key)
-				v := entry[key][mo]
+				v := entryOf(key, msdName)
 				if !((v.K == VRat && v.R.Cmp(want[K]) == 0) || (v.K == VInt && want[K].Cmp(new(big.Rat).SetInt64(v.I)) == 0)) {
 					all = false
 					break
@@ -378,7 +409,7 @@ func (w *World) rulesV4ScoreRest(m *scoreModel, modFn *types.Func, add func(ok b
 				if strings.Contains(tm.msd.Name, strings.Replace(K, "36", "3", 1)) {
 					for _, key := range keys {
 						want, _ := nextLowerMSD(tbl, key)
-						v := entry[key][mo]
+						v := entryOf(key, msdName)
 						if !(v.K == VRat && v.R.Cmp(want[K]) == 0) && !(v.K == VInt && want[K].Cmp(new(big.Rat).SetInt64(v.I)) == 0) {
 							detail = fmt.Sprintf("for MacroVector %s it is %s, but the maximal scoring difference of EQ%s is %s", key, v, K, want[K].FloatString(1))
 							break
@@ -516,7 +547,7 @@ type rangeInfo struct {
 	Var   types.Object
 	Table *types.Var
 	K     string // "1","2","4","5" or "36"
-	Stmt  *ast.RangeStmt
+	Stmt  ast.Stmt
 }
 
 type digitInfo struct {
@@ -625,7 +656,15 @@ func (w *World) parseLoopNest(m *scoreModel, add func(ok bool, rule, inst string
 		}
 		return 0, false
 	}
+	// index loops `for i := 0; i < len(X); i++`: X[i] plays the role of the range variable
+	type xi struct{ x, i types.Object }
+	indexed := map[xi]types.Object{}
 	rvOf := func(e ast.Expr) types.Object {
+		if ix, ok := unparen(e).(*ast.IndexExpr); ok {
+			if o, ok := indexed[xi{identObj(info, ix.X), identObj(info, ix.Index)}]; ok {
+				return o
+			}
+		}
 		o := identObj(info, unparen(e))
 		if o == nil {
 			return nil
@@ -661,7 +700,9 @@ func (w *World) parseLoopNest(m *scoreModel, add func(ok bool, rule, inst string
 								}
 							}
 							if okArgs {
-								return digitOf(rs.Results[0])
+								if rv, pos, ok := digitOf(rs.Results[0]); ok {
+									return rv, pos, true
+								}
 							}
 						}
 					}
@@ -766,14 +807,47 @@ func (w *World) parseLoopNest(m *scoreModel, add func(ok bool, rule, inst string
 	okAll := true
 	var walk func(stmts []ast.Stmt)
 	walk = func(stmts []ast.Stmt) {
-		for _, s := range stmts {
+		for si, s := range stmts {
 			if !okAll {
 				return
 			}
+			var loopX ast.Expr
+			var loopVar types.Object
+			var loopBody *ast.BlockStmt
 			switch st := s.(type) {
 			case *ast.RangeStmt:
+				loopX, loopBody = st.X, st.Body
+				if st.Value != nil {
+					loopVar = identObj(info, st.Value)
+				}
+			case *ast.ForStmt:
+				// for i := 0; i < len(X); i++ { … X[i] … }
+				as, ok1 := st.Init.(*ast.AssignStmt)
+				be, ok2 := st.Cond.(*ast.BinaryExpr)
+				inc, ok3 := st.Post.(*ast.IncDecStmt)
+				if ok1 && ok2 && ok3 && as.Tok == token.DEFINE && len(as.Lhs) == 1 && len(as.Rhs) == 1 && be.Op == token.LSS && inc.Tok == token.INC {
+					io := identObj(info, as.Lhs[0])
+					z, okz := constUint(info, as.Rhs[0])
+					if call, ok := unparen(be.Y).(*ast.CallExpr); ok && io != nil && okz && z == 0 && identObj(info, be.X) == io && identObj(info, inc.X) == io && !assignedIn(info, st.Body, io) && len(call.Args) == 1 {
+						if id, ok := call.Fun.(*ast.Ident); ok && id.Name == "len" {
+							if xo := identObj(info, unparen(call.Args[0])); xo != nil && !assignedIn(info, st.Body, xo) {
+								loopX, loopBody = call.Args[0], st.Body
+								loopVar = types.NewVar(st.Pos(), p.P.Types, xo.Name()+"["+io.Name()+"]", types.Typ[types.Int])
+								indexed[xi{xo, io}] = loopVar
+							}
+						}
+					}
+				}
+				if loopBody == nil {
+					add(false, "R04.max", "Score.loops", st, "loop in the nest is not a range or index loop over a highest-severity vector table: undecided")
+					okAll = false
+					return
+				}
+			}
+			switch st := s.(type) {
+			case *ast.RangeStmt, *ast.ForStmt:
 				// the table row may have been hoisted into a local: rows := table[EQ][level]
-				rx := st.X
+				rx := loopX
 				if o := identObj(info, unparen(rx)); o != nil {
 					if def, ok := hoisted[o]; ok {
 						rx = def
@@ -782,8 +856,8 @@ func (w *World) parseLoopNest(m *scoreModel, add func(ok bool, rule, inst string
 				ix2, ok := unparen(rx).(*ast.IndexExpr)
 				var ri rangeInfo
 				ri.Stmt = st
-				ri.Var = identObj(info, st.Value)
-				okShape := ok && st.Value != nil
+				ri.Var = loopVar
+				okShape := ok && loopVar != nil
 				if okShape {
 					ix1, ok := ix2.X.(*ast.IndexExpr)
 					if !ok {
@@ -810,7 +884,7 @@ func (w *World) parseLoopNest(m *scoreModel, add func(ok bool, rule, inst string
 				}
 				ln.Ranges = append(ln.Ranges, ri)
 				rangeOf[ri.Var] = true
-				walk(st.Body.List)
+				walk(loopBody.List)
 			case *ast.AssignStmt:
 				if len(st.Lhs) != 1 || len(st.Rhs) != 1 {
 					add(false, "R04.max", "Score.loopbody", s, "multi-assignment in the loop body: undecided")
@@ -873,6 +947,44 @@ func (w *World) parseLoopNest(m *scoreModel, add func(ok bool, rule, inst string
 				okAll = false
 				return
 			case *ast.IfStmt:
+				// the positive form, as the last statement of the loop body:
+				// `if d1 >= 0 && d2 >= 0 && … { sums…; break }`
+				if st.Init == nil && st.Else == nil && si == len(stmts)-1 && len(st.Body.List) >= 1 {
+					pos := true
+					var conj []types.Object
+					var collectPos func(e ast.Expr)
+					collectPos = func(e ast.Expr) {
+						switch x := e.(type) {
+						case *ast.ParenExpr:
+							collectPos(x.X)
+						case *ast.BinaryExpr:
+							if x.Op == token.LAND {
+								collectPos(x.X)
+								collectPos(x.Y)
+								return
+							}
+							if x.Op == token.GEQ {
+								if r, okc := exactConst(info, x.Y); okc && r.Sign() == 0 {
+									if o := identObj(info, x.X); o != nil {
+										conj = append(conj, o)
+										return
+									}
+								}
+							}
+							pos = false
+						default:
+							pos = false
+						}
+					}
+					collectPos(st.Cond)
+					if pos && len(conj) > 0 {
+						for _, o := range conj {
+							ln.Guard[o] = true
+						}
+						walk(st.Body.List)
+						continue
+					}
+				}
 				okG := st.Init == nil && st.Else == nil && len(st.Body.List) == 1
 				if okG {
 					br, isBr := st.Body.List[0].(*ast.BranchStmt)
